@@ -12,6 +12,7 @@ import GoNfsd.Lemmas.FsStep
 import GoNfsd.Lemmas.InoOps
 import GoNfsd.Lemmas.FileDataBridge
 import GoNfsd.Lemmas.Files
+import GoNfsd.Lemmas.FilesBridge
 
 namespace GoNfsd.Props.C12
 open GoNfsd.Model.Fs GoNfsd.Gen.Consts
@@ -225,6 +226,17 @@ theorem no_file_ever_shows_foreign_bytes (ops : List GOp) (hf : GFreshAll G.empt
     ∀ off n, (g.file a).read off n = readBytes (L a).1 off n := by
   obtain ⟨_, hr⟩ := ghistory_refines ops G.empty (fun _ => ([], 0)) gempty_inv gempty_rel hf
   exact ⟨(hr a).1, (hr a).2, fun off n => read_refines _ _ _ off n (hr a)⟩
+
+open GoNfsd.Model.BlockMap in
+/-- The block maps `G` works with are the pointer trees of the many-file tree model: its "one owner
+    across files" is `MWF`'s (direct, indirect and double-indirect positions alike), and one `bmap`
+    on the tree of a file is `ensure` on that file's map and nothing on any other file's. -/
+theorem many_files_maps_are_the_pointer_trees (s : S) (roots : Nat → List Nat) (h : MWF s roots) :
+    (∀ a i b j, gmaps s roots a i ≠ 0 → gmaps s roots a i = gmaps s roots b j → a = b ∧ i = j) ∧
+    ∀ a bn, bn < MAXB → ∀ b j,
+      gmaps (bmap s (roots a) bn).1 (setRoots roots a (bmap s (roots a) bn).2.1) b j =
+        if b = a ∧ gmaps s roots a bn = 0 ∧ j = bn then (bmap s (roots a) bn).2.2.1 else gmaps s roots b j :=
+  ⟨ginj_of_MWF s roots h, fun a bn hbn b j => mbmap_is_gensure s roots a bn h hbn b j⟩
 
 /-- Non-vacuity: file 1 writes, is cut to nothing (its block 100 goes back, cleared), file 2 takes
     the SAME block 100 and grows over it: file 2 reads zeros where file 1's bytes were. -/
